@@ -71,6 +71,25 @@ def generate(tier, rng):
                 if v.dis:
                     cls = 'disabled/' + cls
                 c.op(e.id, 'prop %s %s' % (hx(v.ident), hx(q)), cls)
+    # LOOK-ALIKE variants: the same keys with values that are equal as TEXT but differ in type, with equal values, and with
+    # the same entries in another order - each variant still answers for its own declarations
+    for j, pairs in enumerate([
+            ([('level', 's', '1'), ('strict', 's', 'true')], [('level', 'i', 1), ('strict', 'b', True)], [('level', 's', '1'), ('strict', 's', 'true')]),
+            ([('a', 'i', 0), ('b', 's', '0')], [('b', 's', '0'), ('a', 'i', 0)], [('a', 's', '0'), ('b', 'i', 0)]),
+            ([('k', 'b', False), ('k', 's', 'false')], [('k', 's', 'false')], [('k', 'b', False)])]):
+        e = ESpec(id='c15same%d' % j, name='EnC15same%d' % j, derives=['EnumProperty'], feats=['prop'])
+        for i, props in enumerate(pairs):
+            v = VSpec(ident='Sv%d' % i, kind=['unit', 'tuple', 'named'][i % 3], ftypes=[[], ['u8'], ['i32']][i % 3])
+            if v.kind == 'named':
+                v.fnames, v.fdw = ['alpha'], [None]
+            v.props = list(props)
+            e.variants.append(v)
+        e.extra['prop_groups'] = {v.ident: [len(v.props)] for v in e.variants}
+        e.extra['shape'] = 'look-alike props'
+        c.add(e)
+        for v in e.variants:
+            for q in sorted({p[0] for vv in e.variants for p in vv.props} | {'nope'}):
+                c.op(e.id, 'prop %s %s' % (hx(v.ident), hx(q)), 'look-alike/' + ('declared-here' if any(p[0] == q for p in v.props) else 'declared-elsewhere'))
     return c
 
 
